@@ -136,6 +136,17 @@ func (s *rangeProofStructure) verifyProofStructure(proof RangeProof) bool {
 		return false
 	}
 
+	// Validate that there is nothing but the expected values
+	known := make(map[string]bool, len(s.Rhs))
+	for _, curRhs := range s.Rhs {
+		known[curRhs.Secret] = true
+	}
+	for name := range proof.Results {
+		if !known[name] {
+			return false
+		}
+	}
+
 	// Validate presence of all values
 	for _, curRhs := range s.Rhs {
 		rlist, ok := proof.Results[curRhs.Secret]
@@ -184,7 +195,11 @@ func (s *rangeProofStructure) commitmentsFromProof(g zkproof.Group, list []*big.
 	for i := range rangeProofIters {
 		// Build resultLookup
 		resultLookup := rangeProofResultLookup{map[string]*big.Int{}}
-		for name, rlist := range proof.Results {
+		// only the results the structure asks for (verifyProofStructure has checked exactly these): a decoded proof
+		// may carry further keys with lists of any length
+		for _, curRhs := range s.Rhs {
+			name := curRhs.Secret
+			rlist := proof.Results[name]
 			var res *big.Int
 			if name == s.rangeSecret {
 				res = new(big.Int).Sub(rlist[i], resultOffset)
